@@ -15,6 +15,10 @@ CHECKS = {
          "The code-model is compared with the real InMemoryMessageBroker after every call of random well-behaved sessions, and every call kind is cancelled at every event-loop callback index; Lean predicates are evaluated on the implementation's snapshots.",
          "in-memory broker only so far (Redis/RabbitMQ parts: see DESIGN.md); queue_flush/delete excluded.",
          "Lean 4 proof (induction over atom histories) + differential correspondence + cancellation-point enumeration", "§5 C01"),
+ "C02": ("Lean: for EVERY outcome (return, raise, timeout, conversion/dependency failure, six eager responses with any set_result/set_exception/add_callback prefix, callbacks raising or not), every retry budget/attempt count, recurrence and result setting, `process` makes exactly one broker call (exactly_one_terminal), the ladder equals the disposition table (report_eq_disposition), nothing follows an eager response (nothing_after_eager). "
+         "Tie: the whole outcome × retry-state × recurrence × result × converter table is run on the real Worker (in-memory broker, virtual time, jobs concurrent in one worker) and every delivery's broker calls/stores/body/callbacks are compared with the model; the property is evaluated on the observation.",
+         "in-memory broker; thread/process pools not exercised; one genuine defect (F8) repaired by fix: commit 4db1223.",
+         "Lean 4 proof (case analysis, unbounded in retry counters) + exhaustive-table differential correspondence", "§5 C02"),
  "C05": ("Lean: invariant 'every waiting message that had a due time is past it' preserved by every atom, hence for ALL valid histories a normal poll never hands out a message before its due time (mem_never_early_partial; refutation witness for returns out of a DELAYED hold); update_moves_all_due + poll_progress for 'never forgotten'. "
          "Tie: snapshot correspondence in random sessions; notEarlyMs/latencyOk evaluated on every delivery of the real broker in sessions and in listening scenarios (due offsets × consumer phases × enqueue orders, virtual time).",
          "in-memory broker only so far; wall-clock jitter of sleep() is runtime; latency is proved per poll and sampled end-to-end.",
